@@ -36,7 +36,7 @@ func (r *R) Fork() *R               { return NewR(r.U64()) }
 
 var memberNames = []string{
 	"a", "b", "c", "d", "foo", "bar", "baz", "", "a/b", "m~n", "~1", "<x>", "a&b", "é", "\u2028", "k\"q", "back\\slash",
-	"0", "1", "-", "00", "-1", " ", "key with space", "\U0001F600", "null", "\t",
+	"0", "1", "-", "00", "-1", " ", "key with space", "\U0001F600", "null", "\t", "%s", "100%", "a.b", "$ref", "#",
 }
 
 var numberLits = []string{
@@ -47,7 +47,7 @@ var numberLits = []string{
 var stringLits = []string{
 	`""`, `"a"`, `"foo"`, `"bar"`, `"hello world"`, `"<script>"`, `"a&b"`, `"\u003c"`, `"\u2028"`, "\"\u2028\"", `"\n"`, `"\\"`, `"\""`, `"\/"`,
 	`"\ud83d\ude00"`, "\"\U0001F600\"", `"\ud800"`, `"\udc00x"`, `"é"`, `"\u00e9"`, `"tab\there"`, `"\b\f"`, `"null"`, `"0"`, `"~0~1"`, `"a/b"`,
-	`"\u0000"`, `"\u001f"`, `"` + "\x7f" + `"`,
+	`"\u0000"`, `"\u001f"`, `"` + "\x7f" + `"`, `"100% sure"`, `"%s %d %v"`, `"%%"`, `"%!s(MISSING)"`, `"$1 ${x} \\1"`, `"'; --"`, `"a\u0000b"`,
 }
 
 // G generates workloads.
@@ -141,6 +141,9 @@ func (g *G) Value(depth int) string {
 
 func (g *G) Array(depth int) string {
 	n := g.R.Intn(5)
+	if g.R.P(150) {
+		n = 5 + g.R.Intn(8)
+	}
 	if g.R.P(30) {
 		n = 5 + g.R.Intn(40)
 	}
@@ -162,8 +165,11 @@ func (g *G) Array(depth int) string {
 
 func (g *G) Object(depth int) string {
 	n := g.R.Intn(5)
-	if g.R.P(30) {
-		n = 5 + g.R.Intn(20)
+	if g.R.P(200) {
+		n = 5 + g.R.Intn(8)
+	}
+	if g.R.P(40) {
+		n = 12 + g.R.Intn(20)
 	}
 	var sb strings.Builder
 	sb.WriteString("{" + g.ws())
